@@ -249,6 +249,7 @@ def _eval_first_iter(test, env):
 def r93(ctx, rep):
     E = ctx.func(T.EVAL)
     exc = ctx.facts.exc
+    exc.check(E.qual)
     raised = exc.raises[E.qual]
     if "StopIteration" in raised:
         rep.bad("R9.3", "raw StopIteration leaves the evaluation routine")
